@@ -43,14 +43,23 @@ def main():
     dirs = sorted(d for d in glob.glob(os.path.join(VERIF, 'twins', '*')) if os.path.isdir(d) and (not only or any(o in d for o in only)))
     with ThreadPoolExecutor(max_workers=10) as ex:
         results = list(ex.map(run_one, dirs))
-    lines = ['# Behaviour-preserving refactorings re-run against the current checks', '',
-             '| twin | tests | checks not at exit 0 |', '|---|---|---|']
-    noisy = 0
+    head = ['# Behaviour-preserving refactorings re-run against the current checks', '',
+            '| twin | tests | checks not at exit 0 |', '|---|---|---|']
+    rows = {}
+    path = os.path.join(VERIF, 'twins', 'RESULTS.md')
+    if only and os.path.exists(path):
+        # a partial re-run replaces the rows of the twins it ran and keeps the others
+        for l in open(path):
+            if l.startswith('| ') and not l.startswith('| twin') and not l.startswith('|---'):
+                rows[l.split('|')[1].strip()] = l.rstrip('\n')
     for tid, tests, res in results:
-        if res:
-            noisy += 1
-        lines.append(f'| {tid} | {tests} | ' + ('; '.join(f'{p}: exit {rc} {msgs}' for p, (rc, msgs) in res.items()) or 'none') + ' |')
-    lines += ['', f'{len(results)} refactorings; {len(results) - noisy} leave all 19 checks at exit 0']
+        rows[tid] = f'| {tid} | {tests} | ' + ('; '.join(f'{p}: exit {rc} {msgs}' for p, (rc, msgs) in res.items()) or 'none') + ' |'
+    skip = {l.strip() for l in open(os.path.join(VERIF, 'twins', 'NO-VERDICT.txt')) if l.strip() and not l.startswith('#')}
+    quiet = sum(1 for r in rows.values() if r.rstrip().endswith('| none |'))
+    nov = sum(1 for t, r in rows.items() if t in skip and not r.rstrip().endswith('| none |') and 'exit 1' not in r)
+    lines = head + [rows[t] for t in sorted(rows)]
+    lines += ['', f'{len(rows)} refactorings; {quiet} leave all 19 checks at exit 0; {nov} are listed in NO-VERDICT.txt and end with exit 2 (no verdict, DESIGN §17); '
+                  f'{len(rows) - quiet - nov} others not at exit 0']
     open(os.path.join(VERIF, 'twins', 'RESULTS.md'), 'w').write('\n'.join(lines) + '\n')
     print(lines[-1])
 
